@@ -10,8 +10,9 @@ import GdcVerif.Gen.Facts
     package-level variables are written only during initialisation (named exceptions), no method of a
     codec.Codec implementation stores through its receiver, the library starts no goroutine and uses no
     sync/atomic/unsafe, nothing is unclassified;
-  * `validate_noop_on_valid`: over the generated store conditions of each `Validate` method, no store
-    executes on an already-valid parameters object — FALSE for htj2k.Parameters (finding below).
+  * `validate_noop_on_valid_*`: over the generated store conditions of each `Validate` method, no store
+    executes on an already-valid parameters object — for all seven parameter types (htj2k since fix 870ac76);
+  * `codec_parameters_argument_stores`: what else is stored through the `parameters` argument.
 
   What no theorem here exhibits: the Go memory model and the race detector's view of the execution; the step
   from "no store in the typed AST" to "no data race" is the trusted reading of the facts.
@@ -145,39 +146,35 @@ theorem validate_noop_on_valid_j2k_lossy (p : V_jpeg2000_lossy_JPEG2000LossyPara
       0 < p.QuantStepScale) : noStore p.storeConds = true := by
   simp [noStore, V_jpeg2000_lossy_JPEG2000LossyParameters.storeConds]; omega
 
-/-- the statement for all seven parameter types -/
-def validate_noop_on_valid_FullStatement : Prop :=
-  ∀ p : V_jpeg2000_htj2k_Parameters,
-    (1 ≤ p.Quality ∧ p.Quality ≤ 100 ∧ 4 ≤ p.BlockWidth ∧ p.BlockWidth ≤ 1024 ∧ 4 ≤ p.BlockHeight ∧
-      p.BlockHeight ≤ 1024 ∧ 0 ≤ p.NumLevels ∧ p.NumLevels ≤ 6) → noStore p.storeConds = true
-
-/-- FINDING: htj2k.(*Parameters).Validate stores `p.BlockWidth = nearestPowerOf2(p.BlockWidth)` and
-    `p.BlockHeight = …` unconditionally: on the object `GetDefaultParameters()` returns (quality 80, 64×64
-    blocks, 5 levels) two stores execute — a data race when goroutines share the object -/
-theorem validate_htj2k_counterexample :
-    let p : V_jpeg2000_htj2k_Parameters := { Quality := 80, BlockWidth := 64, BlockHeight := 64, NumLevels := 5 }
-    (p.storeConds.filter (·.2)).map (·.1) = ["BlockWidth", "BlockHeight"] := by decide
-
-theorem validate_noop_on_valid_FullStatement_false : ¬ validate_noop_on_valid_FullStatement := by
-  intro h
-  have := h { Quality := 80, BlockWidth := 64, BlockHeight := 64, NumLevels := 5 } (by decide)
-  exact absurd this (by decide)
-
-/-- what does hold for htj2k: apart from the two unconditional block-size stores nothing is stored -/
-theorem validate_htj2k_partial (p : V_jpeg2000_htj2k_Parameters)
+/-- htj2k.Parameters (after fix 870ac76): the block sizes are stored only when rounding changes them.
+    `nearestPowerOf2_BlockWidth` is the value of the helper `nearestPowerOf2(p.BlockWidth)`; an object is
+    valid when it is in range and its block sizes already are what the helper returns -/
+theorem validate_noop_on_valid_htj2k (p : V_jpeg2000_htj2k_Parameters)
     (h : 1 ≤ p.Quality ∧ p.Quality ≤ 100 ∧ 4 ≤ p.BlockWidth ∧ p.BlockWidth ≤ 1024 ∧ 4 ≤ p.BlockHeight ∧
-      p.BlockHeight ≤ 1024 ∧ 0 ≤ p.NumLevels ∧ p.NumLevels ≤ 6) :
-    (p.storeConds.filter (·.2)).map (·.1) = ["BlockWidth", "BlockHeight"] := by
-  obtain ⟨h1, h2, h3, h4, h5, h6, h7, h8⟩ := h
-  have a1 : decide (p.Quality < 1) = false := by simp; omega
-  have a2 : decide (p.Quality > 100) = false := by simp; omega
-  have a3 : decide (p.BlockWidth < 4) = false := by simp; omega
-  have a4 : decide (p.BlockWidth > 1024) = false := by simp; omega
-  have a5 : decide (p.BlockHeight < 4) = false := by simp; omega
-  have a6 : decide (p.BlockHeight > 1024) = false := by simp; omega
-  have a7 : decide (p.NumLevels < 0) = false := by simp; omega
-  have a8 : decide (p.NumLevels > 6) = false := by simp; omega
-  simp [V_jpeg2000_htj2k_Parameters.storeConds, a1, a2, a3, a4, a5, a6, a7, a8]
+      p.BlockHeight ≤ 1024 ∧ 0 ≤ p.NumLevels ∧ p.NumLevels ≤ 6 ∧
+      p.nearestPowerOf2_BlockWidth = p.BlockWidth ∧ p.nearestPowerOf2_BlockHeight = p.BlockHeight) :
+    noStore p.storeConds = true := by
+  obtain ⟨h1, h2, h3, h4, h5, h6, h7, h8, h9, h10⟩ := h
+  simp [noStore, V_jpeg2000_htj2k_Parameters.storeConds, h9, h10]
+  omega
+
+/-- regression anchor for finding `c18-race-jpeg2000/htj2k.(*Parameters).Validate` (fixed by 870ac76): on
+    the object GetDefaultParameters() returns (quality 80, 64×64 blocks, 5 levels) no store executes any more -/
+example :
+    ((V_jpeg2000_htj2k_Parameters.mk 64 64 5 80 64 64).storeConds.filter (·.2)).map (·.1) = [] := by decide
+
+/-- F2b: the only stores through the `parameters` argument of any codec method are the parameter object's own
+    `Validate` (store-free on valid objects, above) and — by the analysis' object-level aliasing — the three
+    JPEG 2000 Encode paths whose per-call encoder captured the MCT arrays of a generic parameters object
+    (the arrays are only read; checked dynamically by `fact-codec-params-changed`).  A direct store such as
+    finding `c18-race-…SetParameter` (fixed by c7914a9) would appear here as an extra entry -/
+theorem codec_parameters_argument_stores :
+    Gen.Facts.codecParameterStores.filter (fun s => s.2.2 != "Validate") =
+      [("jpeg2000/lossless.Codec", "Encode", "call:jpeg2000/lossless.(*Codec).encodeLosslessAllFrames"),
+       ("jpeg2000/lossy.Codec", "Encode", "call:jpeg2000/lossy.(*Codec).encodeFrameOnce"),
+       ("jpeg2000/lossy.Codec", "Encode", "call:jpeg2000/lossy.(*Codec).encodeFrameWithTargetRatio")] ∧
+    (Gen.Facts.codecParameterStores.filter (fun s => s.2.1 == "Decode")).map (·.1) = ["jpeg2000/htj2k.Codec"] := by
+  decide
 
 /-- every parameter type with a Validate method is covered above -/
 theorem validate_types_covered :
